@@ -38,7 +38,7 @@ REQUIRED_COUNTERS = [
     "c16.class.getitem2", "c16.class.setitem1", "c16.class.setitem2", "c16.class.binop", "c16.class.inplace", "c16.inplace-dense-lhs-sparse-rhs",
     "c16.class.unary", "c16.class.V-assign", "c16.class.attr-read", "c16.class.size", "c16.class.query",
     "c16.class.elementwise", "c16.class.base.axpy", "c16.class.base.gemv", "c16.class.base.gemm",
-    "c16.class.base.syrk", "c16.class.base.symv",
+    "c16.class.base.syrk", "c16.class.base.symv", "c16.base.symv.sub-block",
     "c16.spmatrix.duplicates", "c16.spmatrix.explicit-zeros", "c16.spmatrix.empty-pattern", "c16.spmatrix.size-argument",
     "c16.index.list-neg", "c16.index.imat-neg", "c16.index.slice", "c16.index.int", "c16.index.negint",
     "c16.operands.sparse-sparse", "c16.operands.sparse-dense", "c16.operands.dense-sparse", "c16.operands.sparse-number",
@@ -234,7 +234,7 @@ def run(ctx):
 
         def g_sparse():
             t = target()
-            kind = rng.choice(["dense", "dense-tc", "sparse", "sparse-tc", "blocks", "blocks", "column", "invalid"])
+            kind = rng.choice(["dense", "dense-tc", "sparse", "sparse-tc", "blocks", "blocks", "column", "invalid", "scalars"])
             m, n, tc = sdim(rng), sdim(rng), stc(rng)
             if kind in ("dense", "dense-tc"):
                 src = dlit(rng, rng.choice("idz"), m, n) if rng.random() < 0.6 or not live(False) else pick(False)
@@ -254,6 +254,25 @@ def run(ctx):
                 src = "sparse([[%s, %s], [%s, %s]])" % (blocks[0][0], blocks[0][1], blocks[1][0], blocks[1][1])
                 if rng.random() < 0.2:
                     src = src[:-1] + ", 'z')"
+            elif kind == "scalars":
+                # Python numbers as 1x1 blocks in ANY position of a block column of width 1 (one or two block columns)
+                def col1():
+                    items = []
+                    for _ in range(rng.randint(2, 4)):
+                        r_ = rng.random()
+                        if r_ < 0.45:
+                            items.append(repr(rnum(rng, rng.choice("id"))))
+                        elif r_ < 0.75:
+                            items.append(splitc(rng, sdim(rng), 1, stc(rng))[0])
+                        else:
+                            items.append(dlit(rng, rng.choice("id"), sdim(rng), 1))
+                    return items
+                c1 = col1()
+                if rng.random() < 0.5:
+                    src = "sparse([%s])" % ", ".join(c1)
+                else:
+                    src = "sparse([[%s], [%s]])" % (", ".join(c1), ", ".join(col1()))     # heights usually differ: TypeError both sides
+                ctx.count("c16.sparse.scalar-blocks")
             elif kind == "column":
                 a = pick(True)
                 items = [a if a else splitc(rng, m, n, tc)[0]]
@@ -676,9 +695,20 @@ def run(ctx):
             y = fresh("y", "d", ylen, 1, "d")
             if ls.dead:
                 return
-            A = mat_src(ka, n, n, "d")
+            sub = rng.random() < 0.4 and n > 0
+            if sub:
+                # the symmetric block sits inside a larger (not necessarily square) matrix: order n and offsetA explicit,
+                # row offset and column offset drawn independently
+                Mh, Nh = n + rng.randint(0, 2), n + rng.randint(0, 2)
+                i0, j0 = rng.randint(0, Mh - n), rng.randint(0, Nh - n)
+                A = mat_src(ka, Mh, Nh, "d")
+                offA = i0 + j0 * Mh
+                ctx.count("c16.base.symv.sub-block")
+            else:
+                A = mat_src(ka, n, n, "d")
             x = lit(rng, "d", xlen, 1)
             args = kw(uplo=repr(uplo) if uplo != "L" or rng.random() < 0.3 else None, alpha=scal_src("d"), beta=scal_src("d"),
+                      n=n if sub else None, offsetA=offA if sub else None,
                       incx=incx if incx != 1 else None, incy=incy if incy != 1 else None,
                       offsetx=ox if ox else None, offsety=oy if oy else None)
             ctx.count("c16.base.symv.%s.%s" % (ka, uplo))
